@@ -113,9 +113,13 @@ where
 
                     return Poll::Ready(());
                 }
-                // If no messages are available and there's no work to do, block this future
+                // If no messages are available and there's no work to do, block this future.
+                // Anything already handed to the sinks must still be flushed first: the last
+                // publisher may have finished while a flush was pending.
                 Poll::Pending if stream.is_empty() && buffered_item.is_none() => {
-                    return Poll::Pending
+                    // Unwrapping is safe as the underlying sink is guaranteed not to error
+                    ready!(sink.as_mut().poll_flush(cx)).unwrap();
+                    return Poll::Pending;
                 }
                 // Otherwise, move on with running the stream
                 Poll::Pending => handle_pending = true,
